@@ -591,3 +591,9 @@ F("L02", "C12", NS, "    if template >> (m - i) == template & ((1 << i) - 1):", 
 T("L03", "C12", NS, "  for i in range(1, m):\n    if template >> (m - i) == template & ((1 << i) - 1):", "  for j in range(1, m):\n    low = template & ((1 << j) - 1)\n    if low == template >> (m - j):", "border test with renamed variable and temporary")
 T("L04", "C12", NS, "    if template >> (m - i) == template & ((1 << i) - 1):", "    if template >> i == template & ((1 << (m - i)) - 1):", "border length m - i instead of i: the same set of lengths")
 F("L06", "C12", NS, "    for b in range(2**m):\n      if IsNonOverlappingTemplate(b, m):", "    for b in range(2**(m - 1)):\n      if IsNonOverlappingTemplate(b, m):", "R-C12-TEMPLATE", "default set covers half of the templates")
+
+# ---------------------------------------------------------------------------------- C10 giant-step lookup (round 3)
+F("L10", "C10", EC, "      for j, x in enumerate(self.BatchAddX(p, list_c)):\n        if x in self._table:\n          for dl in", "      for j, x in enumerate(self.BatchAddX(p, list_c)):\n        if x is None:\n          continue\n        if x in self._table:\n          for dl in",
+  "R-C10-COVER", "BatchDL: point at infinity skipped before the table lookup (seed r3)")
+T("L11", "C10", EC, "      for j, x in enumerate(self.BatchAddX(p, list_c)):\n        if x in self._table:\n          for dl in", "      for j, x in enumerate(self.BatchAddX(p, list_c)):\n        if x not in self._table:\n          continue\n        if True:\n          for dl in",
+  "BatchDL: lookup inverted into an early continue")
